@@ -51,20 +51,24 @@ META = {
         "writer fills with the node id, no warning on a resolving path, and after every refid store an empty link receives a text "
         "child on every path. "
         "R4 key kinds: every writer of an explicit name keys it with nodes.fully_normalize_name, so the explicit registry is probed with "
-        "a normalised key; the slug registry (keyed by the slug function's output as is) is probed with the exact link text. "
+        "a normalised key; the registry's own key is the registered name itself, not a lossy function of it (make_id, a slugifier) that "
+        "merges distinct names; the slug registry (keyed by the slug function's output as is) is probed with the exact link text. "
         "R5 explicit-only registry: the registry is filled only for names whose nametypes flag is true (a loop over a table without "
         "the flag, a dropped or inverted test is a violation); the '(name)=', attribute-id and :name: writers register with "
         "note_explicit_target unconditionally with respect to document.nameids/ids (which also hold implicit names); the heading "
         "title name registers with note_implicit_target. Writers are append/extend/insert on node['names'] and list literals "
         "re-bound or concatenated onto it. "
         "R6 title extraction: for each heading node render_heading creates (section with a nodes.title child; rubric that is its own "
-        "title) the resolver's title extraction has a case on the same subject (node itself / child of that class). "
+        "title) the resolver's title extraction has a case on the same subject (node itself / child of that class), and a search over "
+        "the children examines every child (no unconditional loop exit, no slice), also when it is a pre-filtering comprehension. "
         "R7 unique slug keys: the key under which a heading enters the slug registry was tested absent from it after its last "
         "assignment on every path (a candidate computed in the return expression is untested). "
         "R8 monotone slug registry: between the per-parse reset and the export as document.myst_slugs the registry is never re-bound "
         "to another object or emptied and no entry is removed. "
         "R9 title text: clean_astext has an image-alt step and a raw-node step, every return comes after each step (or is an early exit "
-        "whose condition examines that node class), and the steps run on a deep copy."
+        "whose condition examines that node class), and the steps run on a deep copy. "
+        "R10 complete slug registry: every path through render_heading (helpers inlined) hands the heading to generate_heading_target, "
+        "and there the store into the slug registry is guarded by nothing but the anchor-depth test (heading_anchors)."
     ),
     "not_decided": (
         "which node a given name resolves to at run time (contents of document.nametypes/nameids/ids and myst_slugs for a concrete "
@@ -78,6 +82,7 @@ META = {
         "Element.update_*_atts / copy_attr_* only read their argument",
         "tabled pre-emptions of the '#' dispatch in render_link (config flags, word 'external' in the class list, autolinks carry a scheme)",
         "the helper inliner (parameter substitution for simple arguments, renaming of colliding locals, single trailing return)",
+        "table of lossy name functions (docutils make_id, slugifiers), read from their sources",
     ],
     "assumptions": [
         "markdown-it autolink/linkify tokens (info == 'auto') always carry an absolute URI, never a bare '#fragment'",
@@ -1283,11 +1288,22 @@ def r2_attribute_agreement(corpus: Corpus, rep: Report, tier: str):
     k = f"{fi.fq}|strip exactly the leading '#'"
     val = rs.target_assign.value
     site = rs.m.site(rs.target_assign)
-    good = isinstance(val, ast.Subscript) and rs._subscript_key(val.value) == rs.uri_key and isinstance(val.slice, ast.Slice) and isinstance(val.slice.lower, ast.Constant) and val.slice.lower.value == 1 and val.slice.upper is None and val.slice.step is None
-    alt = isinstance(val, ast.Call) and isinstance(val.func, ast.Attribute) and val.func.attr == "removeprefix" and val.args and isinstance(val.args[0], ast.Constant) and val.args[0].value == "#" and rs._subscript_key(val.func.value) == rs.uri_key
-    if good or alt:
+    reads = [x for x in ast.walk(val) if rs._subscript_key(x) == rs.uri_key]
+    verdict = None
+    for x in reads:
+        par = getattr(x, "_parent", None)
+        if isinstance(par, ast.Subscript) and par.value is x and isinstance(par.slice, ast.Slice):
+            sl = par.slice
+            ok1 = isinstance(sl.lower, ast.Constant) and sl.lower.value == 1 and sl.upper is None and sl.step is None
+            verdict = "ok" if ok1 else "bad"
+        elif isinstance(par, ast.Attribute) and par.attr in ("removeprefix", "lstrip") and isinstance(getattr(par, "_parent", None), ast.Call):
+            c = par._parent
+            verdict = "ok" if par.attr == "removeprefix" and c.args and isinstance(c.args[0], ast.Constant) and c.args[0].value == "#" else "bad"
+        else:
+            verdict = "bad"
+    if verdict == "ok":
         rep.ok(R2, k, site, short(val, 40))
-    elif rs._subscript_key(val) == rs.uri_key or (isinstance(val, ast.Subscript) and rs._subscript_key(val.value) == rs.uri_key):
+    elif verdict == "bad":
         rep.violation(R2, k, site, f"`{short(rs.target_assign, 60)}`: the writer stores '#name', the registries are keyed by 'name'; the reader must drop exactly one leading character")
     else:
         rep.error(R2, f"target extraction `{short(rs.target_assign, 60)}` not understood")
@@ -1731,6 +1747,57 @@ def _is_normaliser(f: FunctionInfo):
 
 _PURE_CALLS = ("str", "cast", "typing.cast", "t.cast")
 
+# functions that map many names to one id/slug (read from their sources: docutils.nodes.make_id drops every character outside [a-z0-9-],
+# collapses runs and may return ''; the slugifiers drop punctuation) - not usable as a registry key for *names*
+LOSSY_NAME_FUNCS = {
+    "make_id": "docutils' make_id is lossy (drops everything outside [a-z0-9], merges separators, '' for non-latin text)",
+    "default_slugify": "the slug function drops punctuation and merges separators",
+    "slugify": "a slug function drops punctuation and merges separators",
+}
+
+
+def _closure_reaching(fi: FunctionInfo, expr: ast.AST, at: ast.AST) -> list[ast.AST]:
+    """``_closure_nofor`` restricted to bindings whose statement can reach the statement of ``at``."""
+    cfg = get_cfg(fi)
+    goal = cfg.stmt_of(at)
+    out = [expr]
+    seen: set[str] = set()
+    work = [n.id for n in ast.walk(expr) if isinstance(n, ast.Name)]
+    while work:
+        nm = work.pop()
+        if nm in seen:
+            continue
+        seen.add(nm)
+        for val, _, st in _bindings(fi, nm):
+            if isinstance(st, (ast.For, ast.comprehension)):
+                continue
+            try:
+                b = cfg.stmt_of(st)
+            except Unsupported:
+                continue
+            if b is goal or goal in cfg.reachable_from(b):
+                out.append(val)
+                work.extend(n.id for n in ast.walk(val) if isinstance(n, ast.Name))
+    return out
+
+
+def _closure_nofor(fi: FunctionInfo, expr: ast.AST) -> list[ast.AST]:
+    """``_closure`` without expanding loop variables (their 'value' is the iterated table, not a transformation)."""
+    out = [expr]
+    seen: set[str] = set()
+    work = [n.id for n in ast.walk(expr) if isinstance(n, ast.Name)]
+    while work:
+        nm = work.pop()
+        if nm in seen:
+            continue
+        seen.add(nm)
+        for val, _, st in _bindings(fi, nm):
+            if isinstance(st, (ast.For, ast.comprehension)):
+                continue
+            out.append(val)
+            work.extend(n.id for n in ast.walk(val) if isinstance(n, ast.Name))
+    return out
+
 
 def _key_kind(f: FunctionInfo, e: ast.expr) -> str:
     """'norm' (passed through the docutils normaliser / a case fold), 'raw' (no transforming call), 'unknown'."""
@@ -1826,6 +1893,32 @@ def r4_key_normalisation(corpus: Corpus, rep: Report, tier: str):
                 f"`{short(call, 60)}` registers the name {'raw' if not norm else 'normalised'} while {n_norm if majority_norm else len(writers) - n_norm} other writer(s) register it "
                 f"{'normalised (lower-cased, whitespace-collapsed)' if majority_norm else 'raw'}: no single lookup key in ResolveAnchorIds can agree with all writers",
             )
+    # the registry's own key: the name as docutils registered it (unique per document); a lossy function of it merges distinct targets
+    skey = rs.explicit_store.targets[0].slice
+    k = f"{fi.fq}|explicit registry is keyed by the registered name itself"
+    lossy = [c for x in _closure_reaching(fi, skey, rs.explicit_store) for c in ast.walk(x) if isinstance(c, ast.Call) and (dotted(c.func) or "").rsplit(".", 1)[-1] in LOSSY_NAME_FUNCS]
+    other = [
+        c
+        for x in _closure_reaching(fi, skey, rs.explicit_store)
+        for c in ast.walk(x)
+        if isinstance(c, ast.Call) and c not in lossy and not _is_normaliser(fi)(c) and (dotted(c.func) or "") not in _PURE_CALLS
+        and not (isinstance(c.func, ast.Attribute) and c.func.attr in ("lower", "casefold", "strip", "items", "keys"))
+    ]
+    if lossy:
+        fn = (dotted(lossy[0].func) or "").rsplit(".", 1)[-1]
+        rep.violation(
+            R4,
+            k,
+            m.site(rs.explicit_store),
+            f"`{short(rs.explicit_store, 60)}` keys the registry by {fn}(name): {LOSSY_NAME_FUNCS[fn]}, so distinct explicit targets ('a b', 'a_b', 'a-b'; every purely non-latin name) "
+            "collapse onto one key, the later one overwrites the earlier one and `#a_b` is pointed at the target `(a b)=`",
+        )
+        rep.expect_min(R4, 4, "explicit-name writers + the reader")
+        return
+    if other:
+        rep.error(R4, f"{m.site(rs.explicit_store)}: registry key `{short(skey, 40)}` passes through `{short(other[0], 40)}`, which is neither the docutils normaliser nor a known lossy function")
+    else:
+        rep.ok(R4, k, m.site(rs.explicit_store), short(skey, 40))
     # the reader: some membership probe of the explicit registry must use a key of the writers' kind
     probes = []
     for n in rs.body:
@@ -2104,10 +2197,10 @@ def _class_facts(f: FunctionInfo, guards, var: str) -> tuple[set[str] | None, bo
     return classes, odd
 
 
-def _title_cases(f: FunctionInfo, node_vars: set[str], region: list[ast.AST]) -> tuple[list[tuple[str, set[str] | None, ast.AST]], list[str]]:
+def _title_cases(f: FunctionInfo, node_vars: set[str], region: list[ast.AST]) -> tuple[list[tuple], list[str]]:
     """[(relation 'self'|'child', classes or None = any, site)] for every ``*astext(X)`` in ``region``; problems."""
     cfg = get_cfg(f)
-    cases: list[tuple[str, set[str] | None, ast.AST]] = []
+    cases: list[tuple] = []
     problems: list[str] = []
     for n in region:
         if not (isinstance(n, ast.Call) and (dotted(n.func) or "").endswith("astext")):
@@ -2117,15 +2210,40 @@ def _title_cases(f: FunctionInfo, node_vars: set[str], region: list[ast.AST]) ->
             problems.append(f"`{short(n, 40)}`: subject is not a local name")
             continue
         guards = cfg.guards(cfg.stmt_of(n))
+        limit = None
         if x.id in node_vars:
             rel = "self"
         else:
             its = [st for _, _, st in _bindings(f, x.id) if isinstance(st, (ast.For, ast.comprehension))]
             src = its[0].iter if len(its) == 1 and len(_bindings(f, x.id)) == 1 else None
+            if isinstance(src, ast.Subscript) and isinstance(src.slice, ast.Slice):
+                limit = f"`{short(its[0].iter, 40)}` iterates over a slice of the children only"
+                src = src.value
             if isinstance(src, ast.Attribute) and src.attr == "children":
                 src = src.value
+            comp = None
+            if isinstance(src, ast.Name) and src.id not in node_vars:
+                b = [v for v, i, st in _bindings(f, src.id) if i is None]
+                if len(b) == 1 and isinstance(b[0], (ast.ListComp, ast.GeneratorExp)) and len(b[0].generators) == 1:
+                    comp = b[0]
+            elif isinstance(src, (ast.ListComp, ast.GeneratorExp)) and len(src.generators) == 1:
+                comp = src
+            if comp is not None:
+                # children pre-filtered by a comprehension: `[c for c in node if isinstance(c, ...)]` (a slice of *that* list is no limit)
+                g = comp.generators[0]
+                gsrc = g.iter.value if isinstance(g.iter, ast.Attribute) and g.iter.attr == "children" else g.iter
+                if isinstance(gsrc, ast.Name) and gsrc.id in node_vars and isinstance(g.target, ast.Name) and isinstance(comp.elt, ast.Name) and comp.elt.id == g.target.id:
+                    cg = [fp for cond in g.ifs for fp in facts(cond, True)] + list(guards)
+                    classes, odd = _class_facts(f, cg, g.target.id)
+                    if odd:
+                        problems.append(f"`{short(n, 40)}`: a class test in `{short(comp, 40)}` was not understood")
+                    else:
+                        cases.append(("child", classes, n, None))
+                    continue
             if isinstance(src, ast.Name) and src.id in node_vars:
                 rel = "child"
+                if limit is None and isinstance(its[0], ast.For) and not _loop_can_continue(cfg, its[0]):
+                    limit = f"every path through the body of `{short(its[0], 40)}` leaves the loop (break/return), so only the first child is examined"
             else:
                 problems.append(f"`{short(n, 40)}`: `{x.id}` is neither the target node nor one of its children")
                 continue
@@ -2133,8 +2251,29 @@ def _title_cases(f: FunctionInfo, node_vars: set[str], region: list[ast.AST]) ->
         if odd:
             problems.append(f"`{short(n, 40)}`: a class test on `{x.id}` was not understood")
             continue
-        cases.append((rel, classes, n))
+        cases.append((rel, classes, n, limit))
     return cases, problems
+
+
+def _loop_can_continue(cfg, loop: ast.For) -> bool:
+    """Is there a path from the start of the loop body back to the loop header that stays inside the body
+    (i.e. can a second element ever be examined)?"""
+    inside = {id(n) for st in loop.body for n in [st] + list(walk_local(st))}
+    seen = set()
+    work = [("T", loop)]
+    while work:
+        n = work.pop()
+        key = id(n) if not isinstance(n, tuple) else (n[0], id(n[1]))
+        if key in seen:
+            continue
+        seen.add(key)
+        for s in cfg.succ.get(n, []):
+            if s is loop:
+                return True
+            core = s[1] if isinstance(s, tuple) else s
+            if isinstance(core, ast.AST) and id(core) in inside:
+                work.append(s)
+    return False
 
 
 @rule("C09.R6")
@@ -2232,7 +2371,21 @@ def r6_title_extraction(corpus: Corpus, rep: Report, tier: str):
             f"render_heading ({wsite}) registers a nodes.{ncls} whose title is {what}, but the resolver has no case that reads the title from {what} for that class{extra}: "
             f"an empty link to an explicit target on such a heading shows '#name' instead of the heading text",
         )
-    rep.expect_min("C09.R6", 2, "section/title and rubric obligations")
+    for rel, classes, site_node, limit in cases:
+        if rel != "child":
+            continue
+        k = f"{fi.fq}|title search `{short(site_node, 40)}` examines every child of the target node"
+        if limit is None:
+            rep.ok("C09.R6", k, m.site(site_node))
+        else:
+            rep.violation(
+                "C09.R6",
+                k,
+                m.site(site_node),
+                f"{limit}: a caption/title that is not the first child (a figure's caption comes after its image) is never found, "
+                "so an empty link to such an explicit target shows '#name' instead of the caption",
+            )
+    rep.expect_min("C09.R6", 3, "section/title and rubric obligations + the child search")
 
 
 # ---------------------------------------------------------------------------
@@ -2487,7 +2640,56 @@ def r9_title_text_sanitised(corpus: Corpus, rep: Report, tier: str):
     rep.expect_min(R9, 5, "two required steps, each before the return, + the copy")
 
 
-RULES = [r1_dispatch, r2_attribute_agreement, r3_loop_paths, r4_key_normalisation, r5_explicit_only, r6_title_extraction, r7_slug_key_fresh, r8_slug_registry_monotone, r9_title_text_sanitised]
+# ---------------------------------------------------------------------------
+# R10 every heading within the anchor depth enters the slug registry
+
+
+@rule("C09.R10")
+def r10_slug_registry_complete(corpus: Corpus, rep: Report, tier: str):
+    R10 = "C09.R10"
+    rep.rule(R10, "every heading is handed to generate_heading_target, and there the store into the slug registry depends on nothing but the anchor depth (heading_anchors) and the slug function not failing")
+    base = corpus.mod(BASE)
+    rs = _resolver(corpus)
+    wpos = _registry_writer_positions(corpus, rs)
+    f, st = wpos["_writer"]["slugs"]  # type: ignore[index]
+    rep.saw_function(f.fq)
+    cfg = get_cfg(f)
+    k = f"{f.fq}|store into the slug registry depends only on the anchor depth"
+    extra = []
+    depth = []
+    for e, p in cfg.guards(cfg.stmt_of(st)):
+        if any(isinstance(x, ast.Attribute) and x.attr == "heading_anchors" for c in _closure(f, e) for x in ast.walk(c)):
+            depth.append((e, p))
+        else:
+            extra.append((e, p))
+    if extra:
+        e, p = extra[0]
+        rep.violation(
+            R10,
+            k,
+            f.module.site(e),
+            f"`{short(st, 50)}` is only reached when `{('' if p else 'not ') + short(e, 50)}`: a heading within the anchor depth for which this fails (e.g. one that also carries an explicit {{#id}}) "
+            "is not entered into document.myst_slugs, so `[](#its-title-slug)` is reported as 'target not found'",
+        )
+    else:
+        rep.ok(R10, k, f.module.site(st), f"{len(depth)} depth test(s)")
+    # the slug function may fail: the store may sit in try/else, the handler must warn (C10.R4) - here only: no other handler swallows the store
+    # every heading reaches the function
+    rh = _inlined(corpus, base.func("DocutilsRenderer.render_heading"))
+    rep.saw_function(rh.fq)
+    rcfg = get_cfg(rh)
+    calls = [rcfg.stmt_of(c) for c in rh.local_nodes() if isinstance(c, ast.Call) and _self_call(c) == f.name]
+    k = f"{rh.fq}|every heading is handed to {f.name}"
+    if not calls:
+        raise AnchorMissing(f"render_heading does not call {f.name}")
+    if rcfg.paths_avoiding("ENTRY", "EXIT", lambda n: any(n is c for c in calls)):
+        rep.violation(R10, k, rh.site(), f"a path through render_heading ends without calling {f.name}: such headings (e.g. the ones rendered as rubric inside a directive) get no anchor slug and `[](#slug)` links to them are reported missing")
+    else:
+        rep.ok(R10, k, rh.site(), f"{len(calls)} call(s), one on every path")
+    rep.expect_min(R10, 2, "the store guard and the call in render_heading")
+
+
+RULES = [r1_dispatch, r2_attribute_agreement, r3_loop_paths, r4_key_normalisation, r5_explicit_only, r6_title_extraction, r7_slug_key_fresh, r8_slug_registry_monotone, r9_title_text_sanitised, r10_slug_registry_complete]
 
 
 # ---------------------------------------------------------------------------
@@ -2794,4 +2996,41 @@ def mutants(corpus: Corpus):
                 add("c09-title-text-raw-step-lost", "C09.R9", base, splice(base.src, c, "nodes.comment"), "nodes.raw step")
     else:
         out.append(("c09-title-text-early-exit-without-image", "clean_astext shape not recognised"))
+    # ---- R6: the title search stops after the first child ---------------------------------------------------------------
+    if child_isinst is not None:
+        loop_ = None
+        for a in _ancestors(child_isinst):
+            if isinstance(a, ast.For):
+                loop_ = a
+                break
+        iff = None
+        for a in _ancestors(child_isinst):
+            if isinstance(a, ast.If) and a.test is child_isinst or (isinstance(a, ast.If) and any(x is child_isinst for x in ast.walk(a.test))):
+                iff = a
+                break
+        brk = find_node(f, lambda n: isinstance(n, ast.Break) and iff is not None and n in iff.body)
+        if loop_ is not None and iff is not None and brk is not None:
+            seg = _seg(tr, iff)
+            j = seg.rindex("break")
+            add("c09-title-search-break-dedented", "C09.R6", tr, splice(tr.src, iff, seg[:j] + "pass" + seg[j + 5 :] + "\n" + _indent(tr, iff) + "break"), "examines every child")
+        if loop_ is not None:
+            add("c09-title-search-first-child-only", "C09.R6", tr, splice(tr.src, loop_.iter, f"{_seg(tr, loop_.iter)}.children[:1]"), "examines every child")
+    # ---- R4: registry keyed by a lossy function of the name -----------------------------------------------------------------
+    skey = rs.explicit_store.targets[0].slice
+    add("c09-registry-keyed-by-make-id", R4, tr, splice(tr.src, skey, f"nodes.make_id({_seg(tr, skey)})"), "registered name itself")
+    nm_call = find_node(f, lambda n: _is_normaliser(f)(n) and any(isinstance(x, ast.Name) and x.id == rs.target for x in ast.walk(n)))
+    if nm_call is not None:
+        both = splice(tr.src, nm_call.func, "nodes.make_id")
+        both = splice(both, skey, f"nodes.make_id({_seg(tr, skey)})")
+        add("c09-registry-and-lookup-by-make-id", R4, tr, both, "registered name itself")
+    # ---- R10: a heading within the anchor depth is not stored -----------------------------------------------------------------
+    dep = find_node(ght, lambda n: isinstance(n, ast.If) and any(isinstance(x, ast.Attribute) and x.attr == "heading_anchors" for x in ast.walk(n.test)))
+    if dep is not None:
+        add("c09-heading-with-id-gets-no-slug", "C09.R10", base, splice(base.src, dep.test, f"len(node[\"names\"]) > 1 or {_seg(base, dep.test)}"), "depends only on the anchor depth")
+        add("c09-rubric-heading-gets-no-slug", "C09.R10", base, splice(base.src, dep.test, f"isinstance(node, nodes.rubric) or {_seg(base, dep.test)}"), "depends only on the anchor depth")
+    rh = base.func("DocutilsRenderer.render_heading")
+    gc = [n for n in rh.local_nodes() if isinstance(n, ast.Expr) and isinstance(n.value, ast.Call) and _self_call(n.value) == "generate_heading_target"]
+    if gc:
+        first_call = sorted(gc, key=lambda n: n.lineno)[0]
+        add("c09-rubric-path-skips-heading-target", "C09.R10", base, splice(base.src, first_call, "pass"), "is handed to")
     return out
